@@ -211,6 +211,9 @@ def gen_cases(run):
     rng = run.rng
     from vlib.gen import mutate
     sources = corpus.all_sources(n_gen=run.n(2, 6), base_seed=run.seed * 1000)
+    # container-aware hostile archives: valid signatures and checksums, counts that cannot be allocated
+    for name in ("7z-huge-file-count", "7z-huge-stream-count", "zip-huge-entry-count"):
+        sources.setdefault("zip", []).append(["synth", name])
     all_src = [(k, s) for k, v in sources.items() for s in v]
     per_base = run.n(24, 400)
     modes_extra = ["read_file", "cli", "cli-json", "cli-json-unit", "cli-json-binary", "zip", "tar", "tgz", "attachment"]
